@@ -202,6 +202,7 @@ class LineAnalyser:
         merge.freq['end'] = self.freq['end'] + other.freq['end']
         merge.freq['all'] = self.freq['all'] + other.freq['all']
         merge.freq['start'] = self.freq['start'] + other.freq['start']
+        merge.num_lines = self.num_lines + other.num_lines
         merge.set_stats()
         return merge
 
